@@ -1,11 +1,14 @@
 """C13 — size limits and block-size choice: the borders (structural clauses only)."""
-from ..rules import generator as gen
+from ..rules import generator as gen, engine
 
 EXPL = ("Decides the *borders* named in the property from the exact branch conditions in MIR with rustc-evaluated constants: "
         "set_fixed_input_size refuses exactly size > 192 GiB (206158430208); finalisation returns InputSizeTooLarge exactly for "
         "input_size > 192 GiB and that test lies on every path to Ok; may_warn_about_small_input_size is `declared-or-processed < 4097`; "
         "the initial block-size index keeps `start` exactly for size <= 64*3 and is max(start, ilog2((size-1)/192)+1) otherwise, with "
-        "the unit being the same const fn that defines MAX_INPUT_SIZE at index 30 ((3<<n)*64). NOT decided: the block-size choice "
+        "the unit being the same const fn that defines MAX_INPUT_SIZE at index 30 ((3<<n)*64); SA-STEP: block-size elimination in all three "
+        "update forms requires two active contexts, the size border passed and the NEXT context holding >= HALF_SIZE pieces, and the final "
+        "guess halves exactly while the candidate context has < HALF_SIZE pieces (same named constant), starting from "
+        "min(size-based index, bhidx_end-1). NOT decided: the block-size choice "
         "and the last-piece hash as values at large indices (arithmetic over the input).")
 
 
@@ -18,4 +21,5 @@ def run(ctx):
         ctx.guard("C13", "delegate", lambda: gen.finalizers_delegate(ctx, prog))
         ctx.guard("C13", "small", lambda: gen.guard_small_input(ctx, prog))
         ctx.guard("C13", "initial", lambda: gen.guard_initial_block_size(ctx, prog))
+        ctx.guard("C13", "step", lambda: engine.step_thresholds(ctx, prog))
     return ctx.finish(EXPL, ["rustc's compile-time evaluation of MAX_INPUT_SIZE / MIN_RECOMMENDED_INPUT_SIZE", "u64_ilog2 computes floor(log2) (checked arithmetically by the repository's own tests, not here)"])
